@@ -20,7 +20,7 @@ NAMES = [
     "Deady", "United States", "State", "Bell Atlantic Corp.", "Twombly", "Nobelman", "Am. Sav. Bank", "K.F.", "Roe",
     "Wade", "Inc.", "Miles", "AT&T", "O'Brien", "Peña", "Lissner", "Shapiro", "Adarand", "Wilkins", "Zubrek",
 ]
-STOPS = ["v.", "v", "In re", "Ex parte", "see", "See", "citing", "cert. denied", "aff'd", "affirmed", "remanded",
+STOPS = ["v.", "v", "In re", "Ex parte", "see", "See", "citing", "cert. denied", "aff'd", "aff'd", "aff’d,", "affirmed", "remanded",
          "granted", "dismissed", "See also", "But see"]
 LAWS = [
     "Mass. Gen. Laws ch. 1, § 2", "42 U.S.C. § 1983", "18 U. S. C. §§4241-4243", "Fla. Stat. § 120.68 (2007)",
@@ -53,7 +53,8 @@ _year = st.one_of(
 )
 _court = st.sampled_from(["", "4th Cir. ", "Pa.Super. ", "D. Kan. ", "SC ", "Bankr.D. Utah ", "1st Cir.", "N.D. Cal. ", "Mass. "])
 _paren = st.sampled_from(["", " (overruling foo)", " (discussing abc (Holmes, J., concurring))", " (quoting 2 F.2d 2, 3)",
-                          " (same) (ignore this)", " (", " )", " (en banc)"])
+                          " (same) (ignore this)", " (", " )", " (en banc)", " (  holding that x)", " (\t discussing (a) that y) (en banc)",
+                          " (   overruled on other grounds ) (citing Baz)", " ()", " (1994 ed.)", "(same)"])
 
 
 @st.composite
@@ -248,6 +249,10 @@ def fragment(draw, hostile=True, multibyte=False):
     if k < 84:
         return draw(st.sampled_from(STOPS))
     if k < 94 or not (hostile or multibyte):
+        if draw(st.integers(0, 24)) == 0:
+            # a long run of plain words: pushes neighbouring citations beyond the 300-character / 28-token scan windows
+            n = draw(st.sampled_from([30, 60, 90]))
+            return " ".join(draw(st.lists(st.sampled_from(WORDS[:15]), min_size=n, max_size=n)))
         return " ".join(draw(st.lists(st.sampled_from(WORDS), min_size=1, max_size=5)))
     if hostile:
         return draw(st.sampled_from(HOSTILE))
@@ -267,18 +272,22 @@ def document(draw, hostile=True, multibyte=False, max_frags=8, mutate=True):
         alphabet = PUNCT + (HOSTILE if hostile else []) + (MULTIBYTE if multibyte else [])
         for _ in range(draw(st.integers(1, 3))):
             i = draw(st.integers(0, len(s) - 1))
-            op = draw(st.integers(0, 11))
+            op = draw(st.integers(0, 12))
             if op < 3:
                 s = s[:i] + s[i + 1:]
             elif op < 7:
                 s = s[:i] + draw(st.sampled_from(alphabet)) + s[i:]
             elif op < 9:
                 s = s[:i] + s[i:i + 5] + s[i:]
-            else:
+            elif op < 11:
                 # replace the next space (if any) by a whitespace / bracket variant
                 j = s.find(" ", i)
                 if j >= 0:
                     s = s[:j] + draw(st.sampled_from(WS_VARIANTS)) + s[j + 1:]
+            else:
+                # typographic variants of ASCII punctuation (curly apostrophes and quotes, en dash), everywhere
+                a, b = draw(st.sampled_from([("'", "’"), ("'", "ʼ"), ('"', "”"), ("-", "–"), ("'", "‘")]))
+                s = s.replace(a, b)
             if not s:
                 break
     return s
